@@ -140,6 +140,10 @@ def shards(tier, seed):
             add('basis blades under single-deviation option settings: d=4,5 and named custom bases', c, [o for o in opts if deviations(o) == 1 and o['symcls'] != 'sympy'], 'none')
         add('d=4 PGA: graded mode x 3 small grade blocks', spaces.cfg_pqr(3, 0, 1), [o for o in opts if deviations(o) == 1 and o['graded']], 'three')
         add('d=3: single-deviation option settings x 4 grade blocks (3 small blocks in Algebra(3))', spaces.cfg_pqr(3, 0, 0), [o for o in opts if deviations(o) == 1 and o['symcls'] != 'sympy'], 'three')
+        n0 = len(sh)
+        add('option variants derived with dataclasses.replace from a default algebra: single-deviation settings x 4 grade blocks', spaces.cfg_pqr(2, 0, 0), [o for o in opts if deviations(o) == 1], 'four')
+        for x in sh[n0:]:
+            x['derive'] = True
     else:
         nons = [o for o in opts if o['symcls'] != 'sympy']
         sym = [o for o in opts if o['symcls'] == 'sympy']
@@ -153,6 +157,11 @@ def shards(tier, seed):
             add('d<=2: all 23 non-default option settings x all grade blocks (4 blocks for the sympy symbol class)', c, sym, 'four')
         for c in [spaces.cfg_pqr(4, 0, 0), spaces.cfg_pqr(3, 0, 1), spaces.cfg_pqr(1, 3, 0), spaces.cfg_sig([1, -1, 0, 1])]:
             add('d=4: single-deviation non-sympy settings x 3 small grade blocks', c, [o for o in nons if deviations(o) == 1], 'three')
+        n0 = len(sh)
+        for c in [spaces.cfg_pqr(2, 0, 0), spaces.cfg_pqr(1, 1, 0), spaces.cfg_pqr(3, 0, 0)]:
+            add('option variants derived with dataclasses.replace from a default algebra: settings with <=2 deviations x 4 grade blocks', c, [o for o in nons if deviations(o) <= 2], 'four')
+        for x in sh[n0:]:
+            x['derive'] = True
         for c in [spaces.NAMED['2DPGA'], spaces.NAMED['3DPGA'], spaces.NAMED['STAP'], spaces.cfg_pqr(5, 0, 0), spaces.cfg_pqr(4, 1, 1)] + [spaces.cfg_sig([1, 1, -1], basis=b) for b in spaces.bases_by_deviation(3, 1)[1:]]:
             add('basis blades under all non-sympy option settings: d=5,6 and custom bases', c, nons, 'none')
     return sh
@@ -194,7 +203,19 @@ def run_shard(shard):
     res = Result()
     cfg, opt = shard['cfg'], shard['opt']
     base = make_algebra(cfg)
-    alg = build(cfg, opt)
+    if shard.get('derive'):
+        # the option variant is derived from an existing default algebra with dataclasses.replace (as kingdon's own tests do)
+        import dataclasses
+        import sympy
+        kw = dict(cse=opt['cse'], graded=opt['graded'], pretty_blade=opt['pretty'])
+        if opt['symcls'] == 'sympy':
+            kw['codegen_symbolcls'] = sympy.Symbol
+        if WRAPPERS[opt['wrapper']] is not None:
+            kw['wrapper'] = WRAPPERS[opt['wrapper']]
+        parent = make_algebra(cfg)
+        alg = dataclasses.replace(parent, **kw)
+    else:
+        alg = build(cfg, opt)
     name = cfg_name(cfg)
     on = optname(opt)
     blocks = blocks_for(base, shard['blocks'])
@@ -219,6 +240,11 @@ def run_shard(shard):
         if bad:
             case['cause'] = (op, 'value', sorted(optset(opt)))
             res.violate(violation(K('value'), f'{name} [{on}] {op} on {keysdesc}: differs from default options on blades {sorted(bad)}', case, show(o0[1]), show(o1[1])))
+            return
+        r = o1[2]
+        if r is not None and hasattr(r, 'algebra') and r.algebra is not alg:
+            case['cause'] = (op, 'foreign-result', sorted(optset(opt)))
+            res.violate(violation(K('foreign-result'), f'{name} [{on}] {op} on {keysdesc}: the result belongs to another Algebra object than its operands', case, 'alg', 'another algebra'))
             return
         if opt['graded']:
             r = o1[2]
